@@ -465,6 +465,16 @@ func (c *c05Chain) c05NotaryTx(op c05Op) (tx *transaction.Transaction, err error
 	return
 }
 
+// c05Set2: the single-setting operations a "set2" transaction consists of.
+func c05Set2(op c05Op) (string, [2]c05Op) {
+	name := []string{"setgpb", "setreg", "setfpb", "setexec", "setstor", "setattr"}[((op.K%6)+6)%6]
+	a, b := c05Op{T: name, A: op.A}, c05Op{T: name, A: int64(op.N)}
+	if name == "setattr" {
+		a.N, b.N = 0x22, 0x22
+	}
+	return name, [2]c05Op{a, b}
+}
+
 // committeeSigner builds the majority multi-signature signer of the committee the chain has NOW (the universe
 // holds every private key): committee-only methods check the witness of the current committee address, which
 // changes when candidates are voted in.
@@ -611,6 +621,27 @@ func (c *c05Chain) c05BuildTx(op c05Op) (*transaction.Transaction, error) {
 		return c.mkTx(c.polH, "setExecFeeFactor", []any{op.A}, c05FeeSimple, nil, c05AValidators, c05ACommittee)
 	case "setstor":
 		return c.mkTx(c.polH, "setStoragePrice", []any{op.A}, c05FeeSimple, nil, c05AValidators, c05ACommittee)
+	case "set2": // the same committee setting updated twice in ONE transaction: K selects it, values A then N
+		name, _ := c05Set2(op)
+		w := io.NewBufBinWriter()
+		for _, v := range []int64{op.A, int64(op.N)} {
+			switch name {
+			case "setgpb":
+				emit.AppCall(w.BinWriter, c.neoH, "setGasPerBlock", callflag.All, v)
+			case "setreg":
+				emit.AppCall(w.BinWriter, c.neoH, "setRegisterPrice", callflag.All, v)
+			case "setfpb":
+				emit.AppCall(w.BinWriter, c.polH, "setFeePerByte", callflag.All, v)
+			case "setexec":
+				emit.AppCall(w.BinWriter, c.polH, "setExecFeeFactor", callflag.All, v)
+			case "setstor":
+				emit.AppCall(w.BinWriter, c.polH, "setStoragePrice", callflag.All, v)
+			default:
+				emit.AppCall(w.BinWriter, c.polH, "setAttributeFee", callflag.All, int64(0x22), v)
+			}
+			emit.Opcodes(w.BinWriter, opcode.DROP)
+		}
+		return c.mkTx(util.Uint160{}, "", nil, 2*c05FeeSimple, w.Bytes(), c05AValidators, c05ACommittee)
 	case "setattr":
 		return c.mkTx(c.polH, "setAttributeFee", []any{int64(op.N), op.A}, c05FeeSimple, nil, c05AValidators, c05ACommittee)
 	}
